@@ -65,6 +65,8 @@ def tree_hash(repo=None):
             dirs[:] = [d for d in dirs if d not in ("target", ".git")]
             for f in fs:
                 files.append(os.path.relpath(os.path.join(root, f), repo))
+    if "Cargo.lock" not in files and os.path.isfile(os.path.join(repo, "Cargo.lock")):
+        files.append("Cargo.lock")
     h = hashlib.sha256()
     for f in sorted(files):
         if f.startswith("target/"):
@@ -125,8 +127,9 @@ def extract(repo, out_dir, target_dir, config="dev", log=None):
     return time.time() - t0
 
 
-def facts_dir(config="dev", repo=None):
-    """Return the directory holding facts for the current tree of `repo`, extracting if needed."""
+def facts_dir(config="dev", repo=None, target=None):
+    """Return the directory holding facts for the current tree of `repo`, extracting if needed.
+    `target`: name of the cargo target dir under the cache to use (self-test workers use their own)."""
     repo = repo or REPO
     h = tree_hash(repo)
     base = os.path.join(CACHE, "facts")
@@ -135,28 +138,37 @@ def facts_dir(config="dev", repo=None):
     ok = os.path.join(d, "OK")
     if os.path.isfile(ok):
         return d, h, 0.0
-    lock = open(os.path.join(CACHE, f"extract-{config}.lock"), "w")
+    tname = target or f"target-{config}"
+    lock = open(os.path.join(CACHE, f"extract-{tname}.lock"), "w")
     fcntl.flock(lock, fcntl.LOCK_EX)
     try:
         if os.path.isfile(ok):
             return d, h, 0.0
-        if os.path.isdir(d):
-            shutil.rmtree(d)
-        tmp = d + ".tmp"
+        if os.path.isdir(d) and not os.path.isfile(ok):
+            shutil.rmtree(d, ignore_errors=True)
+        target_dir = os.path.join(CACHE, tname)
+        if target is not None and not os.path.isdir(target_dir):
+            # warm a worker target dir from the main one (dependencies are identical)
+            src = os.path.join(CACHE, f"target-{config}")
+            if os.path.isdir(src):
+                subprocess.run(["cp", "-a", "--reflink=auto", src, target_dir], check=False)
+        tmp = d + f".tmp-{os.getpid()}-{tname}"
         if os.path.isdir(tmp):
             shutil.rmtree(tmp)
-        target = os.path.join(CACHE, f"target-{config}")
-        wall = extract(repo, tmp, target, config, log=os.path.join(CACHE, f"extract-{config}.log"))
+        wall = extract(repo, tmp, target_dir, config, log=os.path.join(CACHE, f"extract-{tname}.log"))
         # tree must not have changed while we extracted
         if tree_hash(repo) != h:
             shutil.rmtree(tmp, ignore_errors=True)
             raise ExtractionError("working tree changed during extraction")
         with open(os.path.join(tmp, "OK"), "w") as fh:
             json.dump({"tree": h, "config": config, "wall_s": wall, "rustc": rustc_version()}, fh)
-        os.rename(tmp, d)
-        # keep the cache small: drop fact sets of other trees (keep 6 newest)
-        olds = sorted(glob.glob(os.path.join(base, "*-*")), key=os.path.getmtime, reverse=True)
-        for o in olds[6:]:
+        if os.path.isdir(d):
+            shutil.rmtree(tmp, ignore_errors=True)      # another worker produced the same tree meanwhile
+        else:
+            os.rename(tmp, d)
+        # keep the cache small: drop fact sets of other trees (keep 40 newest)
+        olds = sorted([p for p in glob.glob(os.path.join(base, "*-*")) if ".tmp" not in p], key=os.path.getmtime, reverse=True)
+        for o in olds[40:]:
             shutil.rmtree(o, ignore_errors=True)
         return d, h, wall
     finally:
